@@ -2,7 +2,7 @@
 TLC: spec/ServeSignals.tla (SIGUSR1 does nothing; the first SIGINT / SIGTERM / SIGQUIT / SIGUSR2 begins a graceful shutdown:
 listeners closed, requests in flight served to the end, exit status 0; any further one ends the process at once):
 GracefulLosesNothing, Usr1Harmless, ExitZero, SecondSignalEnds, NothingNewWhileDraining, liveness ShutdownCompletes; 5
-negative controls. Binding (B): thirteen scenarios on the real `relic serve` process (file token, plain-HTTP listener
+negative controls. Binding (B): fifteen scenarios on the real `relic serve` process (file token, plain-HTTP listener
 behind the trusted-proxy headers): raw HTTP requests whose second half the driver withholds keep a request in flight while
 signals are sent; the driver's event log (requests begun / answered in full with a signature / cut off, connection attempts
 refused, signals, exit status) is validated by trace/ServeSignals_Trace with every invariant after every event."""
@@ -51,9 +51,9 @@ def run(t):
                 run.sample(lines[:10])
     finally:
         shutil.rmtree(d, ignore_errors=True)
-    run.cov["rule"] = (f"{reps} x 13 scenarios, each on a fresh `relic serve` process: first signal TERM / INT / QUIT / USR2 with the server idle and with a request in flight; two requests in "
+    run.cov["rule"] = (f"{reps} x 15 scenarios, each on a fresh `relic serve` process (six at a time): first signal TERM / INT / QUIT / USR2 with the server idle and with a request in flight; two requests in "
                        "flight finished one after the other after the signal (the process must outlive the first answer); a second TERM / INT while a request is in flight; USR1 before and "
-                       "during service and during a drain. After a terminating signal the driver polls the port until a connection is refused (connections still accepted while the signal "
+                       "during service and during a drain; a request in flight with the metrics listener configured; a drain of 36 s (slow upload) that must still be served to the end. After a terminating signal the driver polls the port until a connection is refused (connections still accepted while the signal "
                        "is on its way carry no request); if the port still takes requests after 5 s a real request is made and logged. Bounds: graceful exit within 10 s of the last answer, "
                        "immediate exit within 5 s. Answers must be 200 with a signature.")
     run.cov["exhaustive"] = False
